@@ -2,10 +2,12 @@ import Driver.AttrMapD
 import Driver.AddrD
 import Driver.FramingD
 import Driver.BtcpD
+import Driver.UxD
 
 def main (args : List String) : IO UInt32 := do
   match args with
   | ["attrmap"] => Driver.AttrMapD.main; return 0
+  | ["ux"] => Driver.UxD.main; return 0
   | ["btcp"] => Driver.BtcpD.main; return 0
   | ["framing"] => Driver.FramingD.main; return 0
   | ["addr"] => Driver.AddrD.main; return 0
